@@ -14,14 +14,17 @@ Import ListNotations.
 
 Section Seg.
   Context {pt pay tol V : Type}.
+  Variable fx : fixes.
   Variable pt_eqb : pt -> pt -> bool.
   Variable pay_eqb : pay -> pay -> bool.
   Variable tol_reuse : tol -> tol -> bool.
+  Variable tol_eqb : tol -> tol -> bool.
   Variable len_of : @sdata pt pay -> tol -> V.
   Hypothesis pt_eqb_eq : forall a b, pt_eqb a b = true -> a = b.
   Hypothesis pay_eqb_eq : forall a b, pay_eqb a b = true -> a = b.
+  Hypothesis tol_eqb_eq : forall a b, tol_eqb a b = true -> a = b.
   Notation seg := (@seg pt pay tol V).
-  Notation seg_length := (seg_length pt_eqb pay_eqb tol_reuse len_of).
+  Notation seg_length := (seg_length fx pt_eqb pay_eqb tol_reuse tol_eqb len_of).
   Notation sdata_eqb := (sdata_eqb pt_eqb pay_eqb).
 
   (* any reassignment of control points / parameters that keeps the class *)
@@ -51,7 +54,7 @@ Section Seg.
         unfold SegOwn; simpl; auto.
       + unfold SegOwn; simpl; auto.
     - destruct (scache g) as [c|] eqn:E; simpl.
-      + destruct (sdata_eqb (ckey c) (sd g)); simpl; auto.
+      + destruct (sdata_eqb (ckey c) (sd g) && (negb (fx_arc fx) || tol_eqb (ctol c) t)); simpl; auto.
         unfold SegOwn; simpl; auto.
       + unfold SegOwn; simpl; auto.
   Qed.
@@ -92,14 +95,31 @@ Section Seg.
     intros g t H K. unfold PathCache.seg_length, compute. rewrite K.
     unfold SegOwn in H. destruct (scache g) as [c|] eqn:E; simpl; auto.
     destruct (sdata_eqb (ckey c) (sd g)) eqn:D; simpl; auto.
+    destruct (negb (fx_arc fx) || tol_eqb (ctol c) t); simpl; auto.
     right. exists c. split; auto.
     apply (sdata_eqb_eq pt_eqb pay_eqb pt_eqb_eq pay_eqb_eq) in D. rewrite H, D. reflexivity.
+  Qed.
+  (* repaired arc cache: the tolerance is part of the key, so the answer is
+     always the fresh one, whatever was asked before *)
+  Theorem arc_fresh_repaired : fx_arc fx = true ->
+      forall f g t, SegOwn g -> skind (f (sd g)) = KArc ->
+      snd (seg_length (reassign f g) t) = snd (seg_length (fresh_seg (f (sd g))) t).
+  Proof.
+    intros F f g t H K.
+    assert (Fr : snd (seg_length (fresh_seg (f (sd g))) t) = len_of (f (sd g)) t).
+    { unfold PathCache.seg_length; simpl. rewrite K. reflexivity. }
+    rewrite Fr. unfold PathCache.seg_length, compute. simpl. rewrite K, F. simpl.
+    unfold SegOwn in H. destruct (scache g) as [c|] eqn:E; simpl; auto.
+    destruct (sdata_eqb (ckey c) (f (sd g))) eqn:D; simpl; auto.
+    destruct (tol_eqb (ctol c) t) eqn:Q; simpl; auto.
+    apply (sdata_eqb_eq pt_eqb pay_eqb pt_eqb_eq pay_eqb_eq) in D. apply tol_eqb_eq in Q.
+    rewrite H, D, Q. reflexivity.
   Qed.
 
   (* reversed() *)
   Variable rev_data : @sdata pt pay -> @sdata pt pay.
   Variable v_truthy : V -> bool.
-  Notation seg_reversed := (seg_reversed rev_data v_truthy).
+  Notation seg_reversed := (seg_reversed fx pt_eqb pay_eqb rev_data v_truthy).
   Theorem reversed_coherent_partial :
       (forall d t, len_of (rev_data d) t = len_of d t) ->
       forall g, SegOwn g -> (forall c, scache g = Some c -> ckey c = sd g) ->
@@ -108,9 +128,27 @@ Section Seg.
     intros R g H K. unfold PathCache.seg_reversed. unfold SegOwn in H.
     destruct (scache g) as [c|] eqn:E; simpl.
     - destruct (v_truthy (cval c)); simpl.
-      + unfold SegOwn; simpl. rewrite R, H, (K c eq_refl). auto.
+      + destruct (fx_rev fx).
+        * destruct (sdata_eqb (ckey c) (sd g)); simpl.
+          -- unfold SegOwn; simpl. rewrite E, R, H, (K c eq_refl). auto.
+          -- unfold SegOwn; simpl. rewrite E. auto.
+        * unfold SegOwn; simpl. rewrite R, H, (K c eq_refl). auto.
       + unfold SegOwn; simpl. rewrite E. auto.
     - unfold SegOwn; simpl. rewrite E. auto.
+  Qed.
+  (* repaired reversed(): the entry is copied only when it is current, so no
+     side condition on the cache is left (what remains is that a reversed curve
+     has the same length bit for bit, the ulp-level finding) *)
+  Theorem reversed_coherent_repaired : fx_rev fx = true ->
+      (forall d t, len_of (rev_data d) t = len_of d t) ->
+      forall g, SegOwn g -> fst (seg_reversed g) = g /\ SegOwn (snd (seg_reversed g)).
+  Proof.
+    intros F R g H. unfold PathCache.seg_reversed. rewrite F. unfold SegOwn in H.
+    destruct (scache g) as [c|] eqn:E; simpl; [|split; [reflexivity|exact I]].
+    destruct (v_truthy (cval c)); simpl; [|split; [reflexivity|exact I]].
+    destruct (sdata_eqb (ckey c) (sd g)) eqn:D; simpl; [|split; [reflexivity|exact I]].
+    split; auto. unfold SegOwn; simpl.
+    apply (sdata_eqb_eq pt_eqb pay_eqb pt_eqb_eq pay_eqb_eq) in D. rewrite R, H, D. reflexivity.
   Qed.
 End Seg.
 
@@ -183,6 +221,10 @@ Section EqHash.
     induction l1; destruct l2; simpl; intros E; try discriminate; auto.
     apply andb_true_iff in E. destruct E as [E1 E2]. f_equal; auto.
   Qed.
+  (* repaired __hash__: hash((tuple(segments), False)) *)
+  Definition path_hash_repaired (a : pathr) := thash [thash (map seg_hash (p_segs a)); bhash false].
+  Theorem path_eq_hash_repaired : forall a b, path_eq a b = true -> path_hash_repaired a = path_hash_repaired b.
+  Proof. intros a b E. unfold path_eq, path_hash_repaired in *. rewrite (segs_eq_hash _ _ E). reflexivity. Qed.
   Theorem path_eq_hash_partial : forall a b,
       path_eq a b = true -> p_closed a = p_closed b -> path_hash a = path_hash b.
   Proof.
